@@ -274,8 +274,8 @@ def schema_strategy(max_types=5, rich=True):
                                card=draw(st.sampled_from(['single', 'multi'])),
                                required=False, expr=None, default=None, constraints=[],
                                annotations=[], linkprops=[])
-                    if rich and draw(st.integers(0, 2)) == 0:
-                        lpt = draw(st.sampled_from(['str', 'int64']))
+                    if rich and draw(st.integers(0, 1)) == 0:
+                        lpt = draw(st.sampled_from(['str', 'str', 'int64']))
                         lpc = None
                         if lpt == 'str' and draw(st.booleans()):
                             lpc = "max_len_value(9) { errmessage := 'lp too long' }"
@@ -443,7 +443,9 @@ def mutate(schema, draw):
             'drop_default', 'rename_type', 'toggle_abstract', 'add_base', 'drop_base',
             'computed_to_stored', 'stored_to_computed', 'add_linkprop', 'drop_linkprop',
             'add_annotation', 'add_type', 'drop_type', 'change_expr', 'add_link',
-            'change_errmessage', 'change_annotation_value', 'add_base', 'rebase_top']))
+            'change_errmessage', 'change_annotation_value', 'add_base', 'rebase_top',
+            'change_errmessage', 'change_annotation_value', 'change_errmessage',
+            'rebase_top', 'rename_ptr', 'toggle_required']))
         if kind == 'add_prop':
             name = f'np{draw(st.integers(0, 3))}'
             if any(mm.get('name') == name for mm in d['members']):
